@@ -208,9 +208,16 @@ for _name, _dunder in (('trunc', '__trunc__'), ('floor', '__floor__'), ('ceil', 
     if _fn in _core._PATCH_REGISTRATIONS:
         _core._PATCH_REGISTRATIONS[_fn] = _mk_math(_fn, _dunder)
 
+_core._PATCH_REGISTRATIONS[getattr] = _getattr
+_core._PATCH_REGISTRATIONS[hasattr] = _hasattr
+_core._PATCH_REGISTRATIONS[setattr] = _setattr
+
 
 def selftest_a2():
     """Differential self-test of A2 against the builtins on concrete objects (run at shard start)."""
+    assert _core._PATCH_REGISTRATIONS[getattr] is _getattr and _core._PATCH_REGISTRATIONS[setattr] is _setattr \
+        and _core._PATCH_REGISTRATIONS[hasattr] is _hasattr and _core._PATCH_REGISTRATIONS[dict] is _dict \
+        and _core._PATCH_REGISTRATIONS[callable] is _callable, "adaptations not registered"
     class D:
         def __get__(self, o, t): return 41
     class K:
